@@ -41,6 +41,7 @@ inductive POp where
   | crashE (m : Nat)     -- meta-WAL write that dies after m steps (last op, one shard)
   | crashN (m : Nat)     -- first restart dies after m steps of RecoverMNameWALData (last op, one shard)
   | crashF (m : Nat)     -- first restart dies after m system calls of the flushBlock inside RecoverWALData (last op, one shard)
+  | crashS (m : Nat)     -- size-triggered segment rotation of shard 0 that dies after m steps of rotateSegment (last op, one shard)
 
 def parseOp (nsh : Nat) (ser : List Nat) (bsh : Nat) (t : String) : Option POp :=
   match t.toList with
@@ -66,7 +67,7 @@ def parseOp (nsh : Nat) (ser : List Nat) (bsh : Nat) (t : String) : Option POp :
       let m ← nat? m
       if nsh ≠ 1 || m < 1 || m > 1000 then none
       else if kind = "b" then some (.crashB m) else if kind = "r" then some (.crashR m) else if kind = "e" then some (.crashE m)
-      else if kind = "n" then some (.crashN m) else if kind = "f" then some (.crashF m) else none
+      else if kind = "n" then some (.crashN m) else if kind = "f" then some (.crashF m) else if kind = "s" then some (.crashS m) else none
     | _, _ => none
 
 def applyOp (cap : Nat) (s : Sys) : POp → Sys
@@ -83,9 +84,10 @@ def applyOp (cap : Nat) (s : Sys) : POp → Sys
   | .crashN _ => s
   | .crashF _ => s
   | .crashE m => metaFlushCrash m s
+  | .crashS m => segRotateCrash cap m s
 
 def isCrash : POp → Bool
-  | .crashB _ | .crashR _ | .crashE _ | .crashN _ | .crashF _ => true
+  | .crashB _ | .crashR _ | .crashE _ | .crashN _ | .crashF _ | .crashS _ => true
   | _ => false
 
 /-! ### printing -/
